@@ -154,7 +154,7 @@ func typedCase(ctx context.Context, rep *mon.Reporter, rng *mon.Rand, cfg mon.Co
 	in := g.genInput(inTy)
 	spec := g.genSpec(cont, inTy, in, 0)
 	env := &tenv{atomic: anyAtomic(spec)}
-	ref := evalSpec(spec, in, !env.atomic && (splittable(in, spec.In) || in == nil), refEnv{atomic: env.atomic})
+	ref := evalSpec(spec, pend{in, spec.In, !env.atomic && (splittable(in, spec.In) || in == nil), spec.In}, refEnv{atomic: env.atomic})
 
 	wit := map[string]any{"program": spec.render(), "spec": spec, "input": canon(in), "reference": ref.String(), "nil_sites": ref.eventsStr()}
 	b := buildSpec(spec, env)
@@ -298,21 +298,31 @@ func judgeTyped(rep *mon.Reporter, spec *tspec, ref *rres, obs []tobs, wit map[s
 	if len(dev) == 0 {
 		return
 	}
-	// the open findings in which the value is defined (the value forms are right) but the stream
-	// forms fail, or deliver chunks that do not concatenate
-	if dev["missing-error"] == "" && !strings.Contains(dev["unexpected-error"]+dev["wrong-value"], "I") {
-		onlyBroken := true
+	// the open findings in which the value forms are right (they deliver the reference value, or
+	// fail where the reference fails) and only stream forms deviate
+	if !strings.Contains(dev["unexpected-error"]+dev["wrong-value"]+dev["missing-error"], "I") {
+		onlyBroken := ref.Fail == ""
 		for _, o := range obs {
 			if !o.Failed && o.Val != want && !strings.HasPrefix(o.Val, "!not-concatenable") {
 				onlyBroken = false
 			}
 		}
-		if onlyBroken {
-			for _, m := range softOrder {
-				if ref.Soft[m] {
-					rep.Violation(ID+"/typed/open/"+m+"/failure-not-in-every-paradigm", detail, wit)
-					return
-				}
+		for _, m := range softOrder {
+			if !ref.Soft[m] {
+				continue
+			}
+			switch {
+			case onlyBroken:
+				rep.Violation(ID+"/typed/open/"+m+"/failure-not-in-every-paradigm", detail, wit)
+				return
+			case m == hzPtrWhole && ref.Fail != "":
+				// the spurious non-nil pointer takes the place of the nil one that makes the value forms fail
+				rep.Violation(ID+"/typed/open/"+m+"/failure-not-in-every-paradigm", detail, wit)
+				return
+			case m == hzPtrWhole:
+				// ... or of the nil one that the value forms hand on
+				rep.Violation(ID+"/typed/open/"+m+"/values-differ", detail, wit)
+				return
 			}
 		}
 	}
